@@ -717,6 +717,7 @@ fn const_item_json<'tcx>(tcx: TyCtxt<'tcx>, did: DefId) -> Option<J> {
     let val = eval_global(tcx, inst, None, ty);
     Some(o(vec![
         ("path", s(pretty_path(tcx, did))),
+        ("item_kind", s(format!("{:?}", tcx.def_kind(did)))),
         ("ty", s(ty)),
         ("span", s(span_str(tcx, tcx.def_span(did)))),
         ("value", val),
